@@ -480,7 +480,7 @@ fn main() {
     }
 
     let cfgs = alphabet::configs(thorough);
-    let mut alphas: Vec<Vec<MsgSpec>> = vec![alphabet::m1(), alphabet::m1_core(), alphabet::m1_serial(), alphabet::m2(thorough)];
+    let mut alphas: Vec<Vec<MsgSpec>> = vec![alphabet::m1(), alphabet::m1_core(), alphabet::m1_serial(), alphabet::m2(thorough), alphabet::m2b(thorough)];
     // VERIF_SEED only permutes the enumeration order (a rotation of every alphabet)
     for a in alphas.iter_mut() {
         let n = a.len();
@@ -493,10 +493,12 @@ fn main() {
     const A_CORE: usize = 1;
     const A_SERIAL: usize = 2;
     const A_M2: usize = 3;
+    const A_M2B: usize = 4;
     ctx.set("alphabet_m1", json!(alphas[A_M1].len()));
     ctx.set("alphabet_m1_core", json!(alphas[A_CORE].len()));
     ctx.set("alphabet_m1_serial", json!(alphas[A_SERIAL].len()));
     ctx.set("alphabet_m2", json!(alphas[A_M2].len()));
+    ctx.set("alphabet_m2b", json!(alphas[A_M2B].len()));
     ctx.set("prerequisite_atoms", json!(alphabet::prereq_atoms().len()));
     ctx.set("update_atoms", json!(alphabet::update_atoms().len()));
     ctx.set("configs", json!(cfgs.iter().map(|c| c.name.clone()).collect::<Vec<_>>()));
@@ -505,7 +507,9 @@ fn main() {
          {z., a.z., b.z., a.a.z., x.o.(out)} (+ *.z. in one initial zone), types {A,TXT,CNAME,NS,SOA,ANY + meta AXFR/MAILB}, RDATA A{.1,.2} TXT{t} \
          CNAME{a.z.,b.z.} NS{n1.o.,n2.o.} SOA serial {cur-1,cur,cur+1,cur+2,cur+2^31-1,cur+2^31}, TTL {0,60}. M1 = (<=1 prerequisite atom) x \
          (<=1 update atom) over every form of RFC 2136 tables 3.2.4 / 3.4.2.6 plus malformed variants; M1-core / M1-serial = the same product \
-         over sub-alphabets; M2 = (<=2 prerequisites) x (<=3 updates) in every order over a sub-alphabet. Roots = 4 initial zones at serial 1 \
+         over sub-alphabets; M2 = (<=2 prerequisites) x (<=3 updates) in every order over a sub-alphabet; M2b = EVERY update atom \
+         next to each of 3 normally effective atoms (add A a.z., delete RRset a.z. A, add TXT b.z.) in both orders (thorough: also in the middle \
+         of two of them), applied as one further step from every state at depth <= 1 of every root. Roots = 4 initial zones at serial 1 \
          and a zone at serials 0, 2^31-1 and 2^32-2. BFS: full M1 from every state up to the tier's full depth, M1-core below it to the tier's \
          core depth, M2 as one further step from every state up to its depth; canonical key = zone content + empty RRset keys + serial \
          delta; only conforming successors are expanded. Oracle per transition: vref::update (RFC 2136 3.2/3.4 pseudocode, RFC 1982) on the \
@@ -589,6 +593,9 @@ fn main() {
             push(a, true);
             if (depth as i32) <= d_m2 && !cfg.serial_focus {
                 push(A_M2, false);
+            }
+            if depth <= 1 {
+                push(A_M2B, false);
             }
         }
         let results: Mutex<Vec<(u64, Vec<Node>)>> = Mutex::new(vec![]);
